@@ -400,42 +400,48 @@ impl PublishBuilder {
         }
     }
 
-    async fn send_at_least_once_inner(
+    // The packet is written and registered in this call, not when the returned future is
+    // polled; send window is checked by the caller in the same call
+    fn send_at_least_once_inner(
         mut self,
         payload: Bytes,
-    ) -> Result<codec::PublishAck, SendPacketError> {
+    ) -> impl Future<Output = Result<codec::PublishAck, SendPacketError>> {
         // packet id
         let idx = self.shared.set_publish_id(&mut self.packet);
 
         // send publish to client
         log::trace!("Publish (QoS1) to {:#?}", self.packet);
-        self.shared
-            .wait_publish_response(idx, AckType::Publish, self.packet, Some(payload))?
-            .await
-            .map(Ack::publish)
-            .map_err(|_| SendPacketError::Disconnected)
+        let rx = self.shared.wait_publish_response(
+            idx,
+            AckType::Publish,
+            self.packet,
+            Some(payload),
+        );
+        async move { rx?.await.map(Ack::publish).map_err(|_| SendPacketError::Disconnected) }
     }
 
-    async fn stream_at_least_once_inner(
+    // The packet is written and registered in this call, not when the returned future is
+    // polled; send window is checked by the caller in the same call
+    fn stream_at_least_once_inner(
         mut self,
         tx: pool::Sender<()>,
         chunk: Option<Bytes>,
-    ) -> Result<codec::PublishAck, SendPacketError> {
+    ) -> impl Future<Output = Result<codec::PublishAck, SendPacketError>> {
         // packet id
         let idx = self.shared.set_publish_id(&mut self.packet);
 
         // send publish to client
         log::trace!("Publish (QoS1) to {:#?}", self.packet);
 
-        if tx.is_canceled() {
+        let rx = if tx.is_canceled() {
             Err(SendPacketError::StreamingCancelled)
         } else {
             let rx =
                 self.shared.wait_publish_response(idx, AckType::Publish, self.packet, chunk);
             let _ = tx.send(());
-
-            rx?.await.map(Ack::publish).map_err(|_| SendPacketError::Disconnected)
-        }
+            rx
+        };
+        async move { rx?.await.map(Ack::publish).map_err(|_| SendPacketError::Disconnected) }
     }
 
     /// Send publish packet with `QoS 2`
